@@ -27,6 +27,14 @@ Theorem C05_leaf_sound :
 Proof. exact leaf_all_sound. Qed.
 Print Assumptions C05_leaf_sound.
 
+(* ... and on those arguments the decision is a value: it never raises (no IndexError on an empty
+   `in` list, no TypeError), so a well-typed program cannot make the filtered read fail in the leaf *)
+Theorem C05_leaf_total :
+  forall op c vmin vmax x, In op ops -> covered op c vmin vmax x ->
+    exists b, filter_val (PStr op) c vmin vmax = Ok b.
+Proof. exact leaf_all_total. Qed.
+Print Assumptions C05_leaf_total.
+
 Theorem C05_prune_sound :
   forall (R : Type) (cell : R -> string -> pv) (conv : string -> string -> pv -> pv * pv)
          (known : list string) (rgs : list (rowgroup R)) (f : filters) (kept : list (rowgroup R)),
